@@ -183,3 +183,73 @@ def reset_complete(rep, prog, cls, reset_qn, rule, fields=None, ignore=()):
                 '%s::%s (%s) is assigned by %s' % (owner.split('::')[-1], name, ty[:30], reset_qn.split('::')[-1] + '()'), ok,
                 None if ok else ['no assignment to `%s` in the call closure of %s' % (name, reset_qn)])
     return n
+
+
+def nothrow_calls(rep, prog, roots, rule, what):
+    """THROW-PRECONDITION inside clean-up code: a project method that begins with `if (<getter>() is false) throw` (or the negation)
+    states its precondition; in the clean-up functions `roots` (and the same-class functions they call) every call of such a method
+    must be dominated by a test of that getter on the same object that excludes the throwing state.  Otherwise the clean-up itself can
+    throw half-way and leave the object neither reset nor usable."""
+    rep.rule(rule, what)
+    seen, todo, n = set(), list(roots), 0
+    while todo:
+        fn = todo.pop()
+        if id(fn) in seen or not fn.get('body'):
+            continue
+        seen.add(id(fn))
+        F = cppflow.Flow(fn)
+        for node in F.nodes(kind='call'):
+            name = node.stmt[1]
+            cands = [f for (qn, _), f in prog.functions.items() if qn.endswith('::' + name) and f.get('method') and f.get('body')]
+            for c_ in cands:
+                base = (fn.get('cls') or '').split('::pimpl_type')[0]
+                if base and (c_.get('cls') or '').startswith(base) and c_ is not fn:
+                    todo.append(c_)               # same class or its private implementation
+            if len(cands) != 1 or not node.stmt[2]:
+                continue
+            callee = cands[0]
+            FC = cppflow.Flow(callee)
+            first = FC.g.nodes[FC.g.entry.succ[0]] if FC.g.entry.succ else None
+            while first is not None and first.kind == 'branch' and first.succ[0] == first.succ[1]:
+                first = FC.g.nodes[first.succ[0]]
+            if first is None or first.kind != 'branch' or not any(FC.g.nodes[s_].kind == 'throw' for s_ in first.succ):
+                continue
+            c = first.stmt[1]
+            neg = False
+            while c[0] == 'op' and c[1] == 'not':
+                neg = not neg
+                c = c[2]
+            if c[0] != 'call' or c[2:] != (('var', 'this'),):
+                continue
+            getter = c[1]
+            throws_when_getter = (FC.g.nodes[first.succ[0]].kind == 'throw') != neg     # value of getter() that throws
+            obj = node.stmt[2][0]
+            n += 1
+            ok = False
+            def _conj(x):
+                if x[0] == 'op' and x[1] == 'and':
+                    return [y for z in x[2:] for y in _conj(z)]
+                return [x]
+            for b in F.nodes(kind='branch'):
+              top = b.stmt[1]
+              parts = _conj(top) if node.id in F.reach(b.succ[0]) and node.id not in F.reach(b.succ[1]) else [top]
+              for t in parts:
+                tneg = False
+                while t[0] == 'op' and t[1] == 'not':
+                    tneg = not tneg
+                    t = t[2]
+                if t[0] == 'call' and t[1] == getter and (t[2:] == (obj,) or (obj == ('var', 'this') and t[2:] == (('var', 'this'),)))\
+                        and F.dominates(b, node):
+                    # the arm on which the call lies has getter() == safe value
+                    arm_true = node.id in F.reach(b.succ[0]) and node.id not in F.reach(b.succ[1])
+                    arm_false = node.id in F.reach(b.succ[1]) and node.id not in F.reach(b.succ[0])
+                    val = (arm_true != tneg) if (arm_true or arm_false) else None
+                    if val is not None and val != throws_when_getter:
+                        ok = True
+            rep.add(rule, '%s->%s' % (fn['name'], name), where(fn, node.line),
+                    '%s: %s(%s) is called only when %s() is %s (it throws otherwise)' %
+                    (fn['name'], name, ir.fmt(obj)[:40], getter.split('::')[-1], 'false' if throws_when_getter else 'true'), ok,
+                    None if ok else ['%s begins with `if (%s%s()) throw`; this call at line %d is not dominated by a test of %s() on the '
+                                     'same object: the clean-up can throw half-way' %
+                                     (name, '' if throws_when_getter else '!', getter.split('::')[-1], node.line, getter.split('::')[-1])])
+    return n
